@@ -241,17 +241,17 @@ func groupLetters() []any {
 		L{both("g0", "", L{"c0", "c1"})},
 		L{both("g0", omitted, L{"c0", "c1"})},
 		L{both("g0", "fastest", L{"c0", "c1"})},
-		L{group("g0", "round-robin", L{"c0"}, nil, nil)},                                        // TCP only
-		L{group("g0", nil, nil, "round-robin", L{"c0"})},                                        // UDP only
-		L{both("g0", "round-robin", L{})},                                                       // empty
-		L{J{"name": "g0"}},                                                                      // empty, no selection blocks
-		L{both("g0", "round-robin", L{"c0", "cX"})},                                             // dangling member
-		L{both("g0", "round-robin", L{"c0"}), both("g0", "random", L{"c0"})},                    // duplicate group names
-		L{both("c0", "round-robin", L{"c0"}), both("g0", "random", L{"c0"})},                    // group named like a client
-		L{both("g1", "round-robin", L{"c0"}), both("g0", "random", L{"g1", "c1"})},              // nested: later refers to earlier
-		L{both("g0", "round-robin", L{"g1", "c0"}), both("g1", "random", L{"c0"})},              // refers to a later group
-		L{both("g0", "round-robin", L{"g0"})},                                                   // refers to itself
-		L{group("g0", "availability", L{"c0", "c1"}, "latency", L{"c0", "c1"})},                 // mixed probing policies
+		L{group("g0", "round-robin", L{"c0"}, nil, nil)},                           // TCP only
+		L{group("g0", nil, nil, "round-robin", L{"c0"})},                           // UDP only
+		L{both("g0", "round-robin", L{})},                                          // empty
+		L{J{"name": "g0"}},                                                         // empty, no selection blocks
+		L{both("g0", "round-robin", L{"c0", "cX"})},                                // dangling member
+		L{both("g0", "round-robin", L{"c0"}), both("g0", "random", L{"c0"})},       // duplicate group names
+		L{both("c0", "round-robin", L{"c0"}), both("g0", "random", L{"c0"})},       // group named like a client
+		L{both("g1", "round-robin", L{"c0"}), both("g0", "random", L{"g1", "c1"})}, // nested: later refers to earlier
+		L{both("g0", "round-robin", L{"g1", "c0"}), both("g1", "random", L{"c0"})}, // refers to a later group
+		L{both("g0", "round-robin", L{"g0"})},                                      // refers to itself
+		L{group("g0", "availability", L{"c0", "c1"}, "latency", L{"c0", "c1"})},    // mixed probing policies
 		L{J{"name": "g0", "tcp": J{"policy": "availability", "clients": L{"c0"}, "probe": J{"timeout": "0s", "interval": "0s", "concurrency": 0}}, "udp": J{"policy": "round-robin", "clients": L{"c0"}}}},
 		L{J{"name": "g0", "tcp": J{"policy": "availability", "clients": L{"c0"}, "probe": J{"timeout": "-1s", "interval": "bogus"}}, "udp": J{"policy": "round-robin", "clients": L{"c0"}}}},
 	}
@@ -263,24 +263,24 @@ func resolverLetters() []any {
 	return []any{
 		L{ok},
 		omitted,
-		L{ok, d("type", "system")},                                                        // duplicate names
-		L{ok, resolver("name", "d1", "type", "system")},                                    // two resolvers
-		L{d("type", "system")},                                                            //
-		L{d("type", "system", "addrPort", "127.0.0.1:53")},                                 // system with address
-		L{d("type", "system", "udpClientName", "c0")},                                      // system with client
-		L{d("type", "plain", "addrPort", "127.0.0.1:53", "udpClientName", "c0")},           // explicit default type
-		L{d("type", "", "addrPort", "127.0.0.1:53", "tcpClientName", "c0")},                // empty type
-		L{d("type", "doh", "addrPort", "127.0.0.1:53", "tcpClientName", "c0")},             // unknown type
-		L{d("tcpClientName", "c0", "udpClientName", "c0")},                                 // no address
-		L{d("addrPort", "127.0.0.1:53")},                                                   // no clients
-		L{d("addrPort", "127.0.0.1:53", "tcpClientName", "cX")},                            // dangling
-		L{d("addrPort", "127.0.0.1:53", "udpClientName", "cX")},                            // dangling
-		L{d("addrPort", "127.0.0.1:53", "tcpClientName", "g0", "udpClientName", "g0")},     // group as client
-		L{d("addrPort", "localhost:53", "tcpClientName", "c0")},                            // not an IP
-		L{d("addrPort", "127.0.0.1:53", "tcpClientName", "c0", "cacheSize", 0)},            //
-		L{d("addrPort", "127.0.0.1:53", "tcpClientName", "c0", "cacheSize", 1024)},         //
-		L{d("addrPort", "127.0.0.1:53", "tcpClientName", "c0", "cacheSize", -1)},           // documented: unbounded
-		L{d("addrPort", "127.0.0.1:53", "tcpClientName", "c0", "cacheSize", 1)},            //
+		L{ok, d("type", "system")}, // duplicate names
+		L{ok, resolver("name", "d1", "type", "system")},                                // two resolvers
+		L{d("type", "system")},                                                         //
+		L{d("type", "system", "addrPort", "127.0.0.1:53")},                             // system with address
+		L{d("type", "system", "udpClientName", "c0")},                                  // system with client
+		L{d("type", "plain", "addrPort", "127.0.0.1:53", "udpClientName", "c0")},       // explicit default type
+		L{d("type", "", "addrPort", "127.0.0.1:53", "tcpClientName", "c0")},            // empty type
+		L{d("type", "doh", "addrPort", "127.0.0.1:53", "tcpClientName", "c0")},         // unknown type
+		L{d("tcpClientName", "c0", "udpClientName", "c0")},                             // no address
+		L{d("addrPort", "127.0.0.1:53")},                                               // no clients
+		L{d("addrPort", "127.0.0.1:53", "tcpClientName", "cX")},                        // dangling
+		L{d("addrPort", "127.0.0.1:53", "udpClientName", "cX")},                        // dangling
+		L{d("addrPort", "127.0.0.1:53", "tcpClientName", "g0", "udpClientName", "g0")}, // group as client
+		L{d("addrPort", "localhost:53", "tcpClientName", "c0")},                        // not an IP
+		L{d("addrPort", "127.0.0.1:53", "tcpClientName", "c0", "cacheSize", 0)},        //
+		L{d("addrPort", "127.0.0.1:53", "tcpClientName", "c0", "cacheSize", 1024)},     //
+		L{d("addrPort", "127.0.0.1:53", "tcpClientName", "c0", "cacheSize", -1)},       // documented: unbounded
+		L{d("addrPort", "127.0.0.1:53", "tcpClientName", "c0", "cacheSize", 1)},        //
 	}
 }
 
